@@ -38,7 +38,7 @@ func zvC05Configs(thorough bool) []*zvCfg {
 	for _, ap := range []bool{false, true} {
 		for _, ibgp := range []bool{true, false} {
 			for _, pol := range []string{"accept", "rejectP1", "lp200", "prepend2", "nexthop"} {
-				c := &zvCfg{AddPath: ap, IBGP: ibgp, Policy: pol, NPfx: 2, IDs: []uint32{1, 2}, MP: true, Exact: true}
+				c := &zvCfg{AddPath: ap, IBGP: ibgp, Policy: pol, NPfx: 2, IDs: []uint32{0, 2}, MP: true, Exact: true}
 				c.Vars = zvC05Vars(ibgp, 2)
 				if ap {
 					c.DefLP = 120 // configured default LOCAL_PREF; the add-path-off sessions leave it unset (-> 100)
@@ -60,7 +60,7 @@ func zvC05Configs(thorough bool) []*zvCfg {
 				if thorough && ap && (pol == "accept" || pol == "lp200") {
 					// three path identifiers per prefix
 					d := *c
-					d.NPfx, d.IDs, d.Vars = 2, []uint32{1, 2, 3}, zvC05Vars(ibgp, 2)
+					d.NPfx, d.IDs, d.Vars = 2, []uint32{0, 1, 2}, zvC05Vars(ibgp, 2)
 					d.Name = fmt.Sprintf("addpath=%v ibgp=%v policy=%s (2 prefixes, 2 attribute sets, 3 path IDs)", ap, ibgp, pol)
 					heavy = append(heavy, &d)
 				}
